@@ -83,6 +83,20 @@ func genRegistry(r *rand.Rand) []mRegEntry {
 	return reg
 }
 
+// destVariants: spellings that a URL-aware comparison would call "the same location"
+func destVariants(u string) []string {
+	rest := strings.TrimPrefix(u, "https://")
+	out := []string{"http://" + rest, "//" + rest, "https://mallory@" + rest, "https://user:pw@" + rest, u + "#frag", "HTTPS://" + rest,
+		strings.Replace(u, "idp.example.com", "idp.example.com:443", 1), strings.Replace(u, "idp.example.com", "IDP.example.com", 1),
+		strings.Replace(u, "/sso", "/./sso", 1), strings.Replace(u, "/sso", "/%73so", 1)}
+	if strings.Contains(u, "?") {
+		out = append(out, u+"&target=other", u[:strings.Index(u, "?")])
+	} else {
+		out = append(out, u+"?target=other", u+"?")
+	}
+	return out
+}
+
 func nearMisses(s string) []string {
 	out := []string{s + "x", s + "/", strings.ToUpper(s), " " + s, s + " "}
 	if len(s) > 1 {
@@ -209,7 +223,7 @@ func genWire(r *rand.Rand, cfg mCfg, reg []mRegEntry, now time.Time) (mWire, map
 			key["version"] = "other"
 		},
 		func() {
-			w.Destination = pick(r, append(nearMisses(cfg.SSOURL), "https://evil.example.net/sso", cfg.Entity))
+			w.Destination = pick(r, append(append(nearMisses(cfg.SSOURL), destVariants(cfg.SSOURL)...), "https://evil.example.net/sso", cfg.Entity))
 			key["dest"] = "forged"
 		},
 		func() { w.Issue, key["issue"] = genIssue(r, cfg, now) },
@@ -248,6 +262,13 @@ func genWire(r *rand.Rand, cfg mCfg, reg []mRegEntry, now time.Time) (mWire, map
 	}
 	// ACS index
 	key["acsindex"] = "absent"
+	if idx := knownIndices(reg); len(idx) > 0 && len(locs) > 0 && r.Intn(8) == 0 {
+		// both selectors, each naming a registered endpoint (usually different ones): the index must win
+		w.ACSIndex = strconv.Itoa(pick(r, idx))
+		w.ACSURL = pick(r, locs)
+		key["acsindex"], key["acsurl"] = "registered", "registered-with-index"
+		return w, key
+	}
 	switch r.Intn(5) {
 	case 0, 1:
 		w.ACSIndex = pick(r, c05ReqIndices)
@@ -447,6 +468,18 @@ func runC05(c *Ctx) {
 				func(w *mWire) { w.Issuer = sptr("urn:gone") }, func(w *mWire) { w.Issuer = sptr("urn:broken") },
 				func(w *mWire) { w.Destination = "" }, func(w *mWire) { w.Destination = cfg.SSOURL + "/" }, func(w *mWire) { w.Destination = cfg.Entity },
 				func(w *mWire) { w.Version = "" }, func(w *mWire) { w.Version = "1.1" }, func(w *mWire) { w.Version = "2.00" })
+			for _, d := range destVariants(cfg.SSOURL) {
+				d := d
+				vary = append(vary, func(w *mWire) { w.Destination = d })
+			}
+			for _, e := range md.Descs {
+				for _, a := range e.ACS { // index of one registered endpoint with the URL of every other registered endpoint
+					for _, l := range c05Locs[:3] {
+						a, l := a, l
+						vary = append(vary, func(w *mWire) { w.ACSIndex = strconv.Itoa(a.Index); w.ACSURL = l })
+					}
+				}
+			}
 			for _, n := range nearMisses(c05Entity) {
 				n := n
 				vary = append(vary, func(w *mWire) { w.Issuer = sptr(n) })
